@@ -66,3 +66,32 @@ Proof.
   intros Hv. rewrite <- (length_be_bytes n v) at 2. rewrite slice_app_mid.
   rewrite map_mod_normal by apply normal_be_bytes. rewrite be_of_be_bytes. apply N.mod_small. exact Hv.
 Qed.
+
+(* reading back what an update wrote, and reading around it *)
+Lemma slice_upd_prefix b a xs ys : normal xs -> a + N.of_nat (length xs) + N.of_nat (length ys) <= blen b ->
+  slice (upd b a (xs ++ ys)) a (length xs) = xs.
+Proof.
+  intros Hn H. rewrite upd_as_app by (rewrite app_length; lia).
+  set (p := firstn (N.to_nat a) b).
+  assert (Hp : N.of_nat (length p) = a) by (unfold p; rewrite firstn_length; unfold blen in H; lia).
+  replace (p ++ (xs ++ ys) ++ skipn (N.to_nat a + length (xs ++ ys)) b)
+    with (p ++ xs ++ (ys ++ skipn (N.to_nat a + length (xs ++ ys)) b)) by (rewrite <- !app_assoc; reflexivity).
+  rewrite <- Hp. rewrite slice_app_mid. apply map_mod_normal. exact Hn.
+Qed.
+Lemma slice_upd_mid b a xs ys zs : normal ys -> a + N.of_nat (length xs) + N.of_nat (length ys) + N.of_nat (length zs) <= blen b ->
+  slice (upd b a (xs ++ ys ++ zs)) (a + N.of_nat (length xs)) (length ys) = ys.
+Proof.
+  intros Hn H. rewrite upd_as_app by (rewrite !app_length; lia).
+  set (p := firstn (N.to_nat a) b).
+  assert (Hp : N.of_nat (length p) = a) by (unfold p; rewrite firstn_length; unfold blen in H; lia).
+  replace (p ++ (xs ++ ys ++ zs) ++ skipn (N.to_nat a + length (xs ++ ys ++ zs)) b)
+    with ((p ++ xs) ++ ys ++ (zs ++ skipn (N.to_nat a + length (xs ++ ys ++ zs)) b)) by (rewrite <- !app_assoc; reflexivity).
+  replace (a + N.of_nat (length xs)) with (N.of_nat (length (p ++ xs))) by (rewrite app_length; lia).
+  rewrite slice_app_mid. apply map_mod_normal. exact Hn.
+Qed.
+Lemma bit_at_upd_far b a xs i : a + N.of_nat (length xs) <= blen b -> i / 8 < a -> bit_at (upd b a xs) i = bit_at b i.
+Proof.
+  intros H Hi. unfold bit_at. rewrite byte_at_upd by exact H.
+  replace ((a <=? i / 8) && (i / 8 <? a + N.of_nat (length xs))) with false by (symmetry; apply andb_false_iff; left; apply N.leb_gt; exact Hi).
+  reflexivity.
+Qed.
